@@ -4,6 +4,7 @@ mod c07;
 mod case;
 mod gen;
 mod interp;
+mod matrix;
 mod world;
 
 use vcore::drive::{Ctx, Engine, Report, Stage, Tier};
@@ -16,6 +17,30 @@ impl Engine for Msim {
 
     fn properties() -> Vec<&'static str> {
         vec!["C01", "C02", "C03", "C04", "C06", "C07", "C08", "C09", "C11", "C13"]
+    }
+
+    fn level(prop: &str) -> &'static str {
+        if prop == "C03" {
+            "fault_enumeration"
+        } else {
+            "exploration"
+        }
+    }
+
+    fn extra_coverage(ctx: &Ctx, labels: &std::collections::BTreeMap<String, u64>) -> serde_json::Value {
+        if ctx.prop != "C03" {
+            return serde_json::Value::Null;
+        }
+        let matrix: std::collections::BTreeMap<String, u64> = labels
+            .iter()
+            .filter(|(k, _)| k.starts_with("crash:") || k.starts_with("cancel-at:") || k.starts_with("iso-differential"))
+            .map(|(k, v)| (k.clone(), *v))
+            .collect();
+        serde_json::json!({
+            "exhaustive": true,
+            "exhaustive_scope": "stage crash-matrix: for each generated configuration and prefix state every (await point of the next get x abandonment mode x 0..2 earlier rejects) is executed; prefixes and configurations themselves are sampled",
+            "matrix": matrix,
+        })
     }
 
     fn rule(prop: &str) -> String {
@@ -52,15 +77,30 @@ impl Engine for Msim {
             (_, false) => 16 * 800,
             (_, true) => 16 * 30000,
         };
-        vec![Stage {
+        let mut stages = vec![Stage {
             name: "random".into(),
             cases,
             strategy: gen::case(p),
-        }]
+        }];
+        if ctx.prop == "C03" {
+            stages.insert(
+                0,
+                Stage {
+                    name: "crash-matrix".into(),
+                    cases: if thorough { 16 * 400 } else { 16 * 40 },
+                    strategy: gen::matrix_case(),
+                },
+            );
+        }
+        stages
     }
 
     fn run(ctx: &Ctx, case: &case::Case) -> Report {
-        interp::Interp::new(ctx, case).run()
+        if case.matrix.is_some() {
+            matrix::run(ctx, case)
+        } else {
+            interp::Interp::new(ctx, case).run()
+        }
     }
 }
 
